@@ -1,6 +1,184 @@
-//! Bounded exhaustive schedule exploration (stateless DFS with a preemption bound).
+//! Bounded exhaustive schedule exploration: stateless DFS over the scheduler's
+//! decisions with a preemption bound, driven from outside through schedule
+//! prefixes (`Strategy::Replay`: prefix, then "continue the current thread,
+//! else lowest tid").
+//!
+//! Every complete schedule is reached exactly once: a run with forced prefix
+//! `p` takes default choices after `p`; its children are, for every decision
+//! index `i >= len(p)` and every non-chosen candidate `c`, the prefix
+//! `chosen[..i] ++ [c]` — provided the number of preemptions stays within the
+//! bound. A preemption is a decision that switches away from the baton holder
+//! while the holder is itself a candidate (yields and blocking are free).
 
-pub fn main(_args: &[String]) {
-  eprintln!("chanh dfs: not implemented yet");
-  std::process::exit(2);
+use crate::exec;
+use crate::prog::{self, Case};
+use loom::rt;
+use std::io::Write;
+
+pub fn main(args: &[String]) {
+  let mut path: Option<String> = None;
+  let mut preempt: usize = 2;
+  let mut max_runs: usize = 5000;
+  let mut all = false;
+  let mut i = 0;
+  while i < args.len() {
+    match args[i].as_str() {
+      "--preempt" => {
+        preempt = args.get(i + 1).and_then(|s| s.parse().ok()).unwrap_or(2);
+        i += 1;
+      }
+      "--max-runs" => {
+        max_runs = args.get(i + 1).and_then(|s| s.parse().ok()).unwrap_or(5000);
+        i += 1;
+      }
+      "--all" => all = true,
+      x if path.is_none() => path = Some(x.to_string()),
+      x => {
+        eprintln!("chanh dfs: unexpected argument {}", x);
+        std::process::exit(2);
+      }
+    }
+    i += 1;
+  }
+  let Some(path) = path else {
+    eprintln!("usage: chanh dfs <casefile> [--preempt K] [--max-runs N] [--all]");
+    std::process::exit(2)
+  };
+  let text = std::fs::read_to_string(&path).unwrap_or_else(|e| {
+    eprintln!("chanh dfs: cannot read {}: {}", path, e);
+    std::process::exit(2)
+  });
+  let cases = prog::parse_cases(&text).unwrap_or_else(|e| {
+    eprintln!("chanh dfs: {}", e);
+    std::process::exit(2)
+  });
+  let stdout = std::io::stdout();
+  let mut out = stdout.lock();
+  for base in &cases {
+    explore(base, preempt, max_runs, all, &mut out);
+  }
+}
+
+struct Frame {
+  chosen: Vec<usize>,
+  cands: Vec<u32>,
+  cur: Vec<Option<usize>>,
+  /// pre[i] = preemptions spent in decisions[..i]
+  pre: Vec<usize>,
+  lo: usize,
+  /// next decision index to branch at is `i - 1` (iterating downwards), candidate cursor `c`
+  i: usize,
+  c: usize,
+}
+
+impl Frame {
+  fn new(ds: &[rt::Decision], lo: usize) -> Frame {
+    let mut pre = vec![0usize; ds.len() + 1];
+    for (i, d) in ds.iter().enumerate() {
+      let p = match d.current {
+        Some(cur) if cur != d.chosen => 1,
+        _ => 0,
+      };
+      pre[i + 1] = pre[i] + p;
+    }
+    Frame {
+      chosen: ds.iter().map(|d| d.chosen).collect(),
+      cands: ds.iter().map(|d| d.candidates).collect(),
+      cur: ds.iter().map(|d| d.current).collect(),
+      pre,
+      lo,
+      i: ds.len(),
+      c: 0,
+    }
+  }
+
+  /// next unexplored child prefix within the preemption bound
+  fn next_child(&mut self, bound: usize) -> Option<Vec<usize>> {
+    while self.i > self.lo {
+      let i = self.i - 1;
+      while self.c < 32 {
+        let cand = self.c;
+        self.c += 1;
+        if self.cands[i] & (1 << cand) == 0 || cand == self.chosen[i] {
+          continue;
+        }
+        let cost = match self.cur[i] {
+          Some(cur) if cur != cand => 1,
+          _ => 0,
+        };
+        if self.pre[i] + cost > bound {
+          continue;
+        }
+        let mut p = self.chosen[..i].to_vec();
+        p.push(cand);
+        return Some(p);
+      }
+      self.i -= 1;
+      self.c = 0;
+    }
+    None
+  }
+}
+
+pub fn explore(base: &Case, bound: usize, max_runs: usize, all: bool, out: &mut dyn Write) {
+  let mut runs = 0usize;
+  let mut with_monitor = 0usize;
+  let mut deadlocks = 0usize;
+  let mut sigs: std::collections::BTreeMap<String, usize> = Default::default();
+  let mut complete = true;
+  let mut stack: Vec<Frame> = Vec::new();
+  let mut next: Option<Vec<usize>> = Some(Vec::new());
+  loop {
+    let prefix = match next.take() {
+      Some(p) => p,
+      None => {
+        let Some(top) = stack.last_mut() else { break };
+        match top.next_child(bound) {
+          Some(p) => p,
+          None => {
+            stack.pop();
+            continue;
+          }
+        }
+      }
+    };
+    if runs >= max_runs {
+      complete = false;
+      break;
+    }
+    let mut c = base.clone();
+    c.id = format!("{}.d{}", base.id, runs);
+    c.mode = "dfs".into();
+    c.strategy = "replay".into();
+    c.schedule = Some(prefix.clone());
+    let res = exec::run_case(&c, crate::config_for(&c));
+    runs += 1;
+    let text = crate::render(&c, &res);
+    let mut hit = false;
+    for l in text.lines() {
+      if let Some(rest) = l.strip_prefix("!monitor ") {
+        hit = true;
+        let sig = rest.split(" | ").next().unwrap_or("").to_string();
+        *sigs.entry(sig).or_insert(0) += 1;
+      }
+    }
+    if hit {
+      with_monitor += 1;
+    }
+    if matches!(res.outcome.status, rt::Status::Deadlock(_)) {
+      deadlocks += 1;
+    }
+    if all || hit {
+      let _ = out.write_all(text.as_bytes());
+    }
+    stack.push(Frame::new(&res.outcome.decisions, prefix.len()));
+  }
+  let _ = writeln!(
+    out,
+    "#dfs case={} preempt={} runs={} complete={} deadlocks={} runs-with-monitor={}",
+    base.id, bound, runs, complete, deadlocks, with_monitor
+  );
+  for (s, n) in sigs {
+    let _ = writeln!(out, "#dfs-signature {} {}", n, s);
+  }
 }
